@@ -438,7 +438,7 @@ func init() {
 	mc.Register(&mc.Check{
 		ID:    "C17",
 		Level: "exploration",
-		Rule: "E1 exhaustive: (a) every string of <= L characters over {a, é, 你, 😀, U+FFFD, U+FEFF} (L=4 quick, 5 thorough): unpadded through FileStream.ReadAll and ByteStream.ReadAll; padded with ASCII (before the character, and at file start) so that byte offset k of each character (k = 0..len, internal ones are the non-trivial cases) lies on block boundary 4096 and on 8192, through FileStream.ReadAll; unpadded through FileStream.Read(n) and ByteStream.Read(n) repeated to exhaustion for every constant n in 1..9 and every alternating pair (n1,n2) in 1..5 x 1..5. " +
+		Rule: "E1 exhaustive: (a2) runs of N characters of one width (1, 2, 3, 4 bytes) with N x width within 3 characters of one and of two read blocks, behind 0..4 bytes of padding, decoded and run as a program (the run inside a comment, a statement after it); (a) every string of <= L characters over {a, é, 你, 😀, U+FFFD, U+FEFF} (L=4 quick, 5 thorough): unpadded through FileStream.ReadAll and ByteStream.ReadAll; padded with ASCII (before the character, and at file start) so that byte offset k of each character (k = 0..len, internal ones are the non-trivial cases) lies on block boundary 4096 and on 8192, through FileStream.ReadAll; unpadded through FileStream.Read(n) and ByteStream.Read(n) repeated to exhaustion for every constant n in 1..9 and every alternating pair (n1,n2) in 1..5 x 1..5. " +
 			"(b) every byte string of length <= 2 over all 256 values and of length 3 over 24 structural bytes (thorough: length 3 over all 256 values in the middle position, length 4 over the 24) inserted into a small ASCII+CJK host at start / middle / after the 1st and 2nd byte of a CJK character / end (FileStream.ReadAll and ByteStream.ReadAll) and into a 4.2 KiB host at every split of the string across block boundary 4096 (FileStream.ReadAll); every single-byte substitution (255 values x every offset) of a 60-byte sample with 1-4-byte characters, plain and with the substituted byte at offsets 4095 and 4096; GBK encodings of 4 sample programs alone and after a valid UTF-8 first line. " +
 			"(c) end to end through Interpreter.LoadFile(...).Execute: three small programs with every single byte, every pair of structural bytes and U+FFFD / U+FEFF / é / 😀 inserted at every byte offset, and every single-byte substitution; a > 4 KiB program with every single byte inserted in its second read block; plus the GBK files. " +
 			"Oracle: utf8.Valid => exactly []rune(string(bytes)) minus one leading U+FEFF and no error (end to end: same outcome as executing that text through LoadScript); not valid => a non-nil error (end to end: an error and no 显示 executed). (string, position, stream, n) tuples are distinct by construction (a few files coincide where inserted bytes equal neighbouring host bytes); a case is non-trivial if the input is not valid UTF-8, or contains U+FFFD / U+FEFF, or a multi-byte character is split by a block / Read(n) boundary.",
@@ -765,6 +765,40 @@ func c17Run(c *mc.Ctx) {
 		}
 		if gi == 0 {
 			c.Sample(map[string]any{"part": "gbk", "program": g.name, "gbk_hex": hex.EncodeToString(g.b)})
+		}
+	}
+
+	// ---- (a2) blocks filled with characters of one width: a run of N k-byte characters with
+	// N*k around one and two read blocks, behind 0..4 bytes of padding, followed by a statement
+	for _, ch := range []string{"a", "é", "你", "😀"} {
+		w := len(ch)
+		for _, B := range []int{4096, 8192} {
+			for dn := -3; dn <= 3; dn++ {
+				for pad := 0; pad <= 4; pad++ {
+					if !unit() {
+						continue
+					}
+					n := B/w + dn
+					for _, tail := range []string{"", "」\n输出2"} {
+						head := ""
+						part := "readall"
+						if tail != "" {
+							head, part = "注：「", "e2e"
+						}
+						for _, st := range []string{"file", "byte"} {
+							if part == "e2e" && st == "byte" {
+								continue
+							}
+							cur = c17Case{Part: part, Stream: st, Where: fmt.Sprintf("%d x %q behind %d bytes of padding (block %d)", n, ch, pad, B),
+								Segs: c17Segs(c17T(head), c17Pad(pad), c17R(ch, n), c17T(tail))}
+							if part == "e2e" && pad > 0 {
+								cur.Segs = c17Segs(c17T(head), c17R(" ", pad), c17R(ch, n), c17T(tail))
+							}
+							run("a2_homogeneous_blocks", w > 1)
+						}
+					}
+				}
+			}
 		}
 	}
 
